@@ -125,14 +125,14 @@ def c03_programs(draw, max_actors=5, max_ops=8):
             elif k == "io":
                 ops.append(["io", "d_h%d" % draw(st.integers(0, nh - 1)), float(draw(st.integers(0, 4)) * 262144),
                             draw(st.sampled_from(["read", "write"]))])
-            elif k == "killtime" and not killset:
+            elif k == "killtime" and (not killset or draw(st.integers(0, 3)) == 0):      # a later kill time replaces the earlier one
                 killset = True
                 ops.append(["set_kill_time", draw(D) * draw(st.sampled_from([1, 2, 4]))])
             elif k == "join_to" and nact > 1:
                 ops.append(["join", "a%d" % draw(st.integers(0, nact - 1).filter(lambda x: x != ai)), draw(D)])
         spec = {"name": "a%d" % ai, "host": "h%d" % draw(st.integers(0, nh - 1)), "ops": ops,
                 "on_exit": draw(st.integers(0, 2))}
-        if not killset and draw(st.integers(0, 3)) == 0:
+        if (not killset or draw(st.integers(0, 3)) == 0) and draw(st.integers(0, 3)) == 0:
             spec["kill_time"] = draw(D) * draw(st.sampled_from([1, 2, 4]))
         if draw(st.integers(0, 7)) == 0:
             spec["daemon"] = True
@@ -380,7 +380,11 @@ def check_c03(case, log, oc, labels):
                         oc.bad("sync-timeout-too-early", what + " timed out at %r" % t1)
                 elif d < PREC:
                     # the statement does not say whether the clamp applies to these: accept the whole range
-                    if not (lo <= t1 <= t0 + PREC + ulp(t0 + PREC)):
+                    hi = t0 + PREC
+                    merged = t1 < lo and hi - t1 < PREC * (1 + 1e-6) and any(abs(t1 - x) <= ulp(t1) for x in others(r["a"]))
+                    if merged:
+                        labels.add("merged-within-precision")
+                    elif not (lo <= t1 <= hi + ulp(hi)):
                         oc.bad("sync-timeout-wrong-date", what + " timed out at %r" % t1)
                 else:
                     match_date(oc, labels, tl, what, r["n_ret"], t1, lo, others(r["a"]), True, "sync-timeout-wrong-date")
@@ -429,10 +433,13 @@ def kill_times_of(case, ops):
     res = {}
     for a in case["actors"]:
         if a.get("kill_time", -1) > 0:
-            res[a["name"]] = (0.0, a["kill_time"])
+            res[a["name"]] = (0.0, a["kill_time"], False)
     for r in ops:
         if r["op"][0] == "set_kill_time" and r["t_ret"] is not None and r["op"][1] > r["t_req"]:
-            res[r["a"]] = (r["t_req"], r["op"][1])
+            if r["a"] in res:
+                res[r["a"]] = (r["t_req"], r["op"][1], True)      # replaces the kill time set earlier (fix 6bf89374c4)
+            else:
+                res[r["a"]] = (r["t_req"], r["op"][1], False)
     return res
 
 
@@ -454,7 +461,9 @@ def check_kill_times(case, log, oc, labels, tl, ops):
     deadlock = bool(log.of("deadlock"))
     spec = {a["name"]: a for a in case["actors"]}
     nondaemon_end = max([ends[a][1] for a in ends if not spec.get(a, {}).get("daemon")], default=None)
-    for a, (t_set, kt) in kill_times_of(case, ops).items():
+    for a, (t_set, kt, replaced) in kill_times_of(case, ops).items():
+        if replaced:
+            labels.add("kill-time-replaced")
         if a not in ends:
             if log.done:
                 oc.bad("actor-never-ends", "%s has no termination record" % a)
